@@ -87,7 +87,7 @@ def load_known():
     if os.path.exists(KNOWN):
         for line in open(KNOWN):
             line = line.strip()
-            if line and not line.startswith('#'):
+            if line.startswith('{'):
                 out.append(json.loads(line))
     return out
 
@@ -193,6 +193,7 @@ def run_check(prop, tier, budget=None, runs=None, seed=None, workers=None, no_mi
     known_seen = {}
     samples = []
     relax = 0
+    nvariants = ncalls = nvfired = 0
     for res in engine.campaign(prop, cfg['profile'], base_seed, tier, budget, runs,
                                cfg.get('gopts'), cfg.get('mopts'), workers):
         n += 1
@@ -204,6 +205,9 @@ def run_check(prop, tier, budget=None, runs=None, seed=None, workers=None, no_mi
         for k, x in res['probes'].items():
             probes[k] = probes.get(k, 0) + x
         relax += res.get('relax', 0)
+        nvariants += res.get('variants', 0)
+        ncalls += res.get('calls', 0)
+        nvfired += res.get('variants_fired', 0)
         simsec += res['simsec']
         sched_sigs.add(res.get('sched_sig'))
         for s in res.get('abs_states', []):
@@ -300,6 +304,18 @@ def run_check(prop, tier, budget=None, runs=None, seed=None, workers=None, no_mi
         'wall_s': round(wall, 2),
         'violations': len(out_viol),
     }
+    if prop == 'C06':
+        ev['coverage']['rule'] = (
+            'one evaluation = one sampled request history whose checkpoint(s) after the MARK are enumerated completely: '
+            'for every spool system call k (openat, each write, close, renameat, unlinkat) one run that crashes the daemon '
+            'before call k and one run per plausible errno (plus a short write) that fails call k, each followed by a restart '
+            'and a check of what the fresh daemon arms; non-trivial = the history has at least one such call and a fault fired; '
+            'distinct = by hash of the plan')
+        ev['coverage']['fault_positions'] = ncalls
+        ev['coverage']['fault_variants_run'] = nvariants
+        ev['coverage']['fault_variants_fired'] = nvfired
+        ev['coverage']['exhaustive_within_each_history'] = True
+        ev['coverage']['exhaustive'] = False
     os.makedirs(VERIF + '/evidence', exist_ok=True)
     with open('%s/evidence/%s.json' % (VERIF, prop), 'w') as f:
         json.dump(ev, f, indent=1)
